@@ -416,7 +416,7 @@ PROPS["C11"] = dict(
           "the transport (after label wrapping). non-trivial = some packet with >= 2 parts; distinct = distinct plans"),
     tests=[
         dict(name="pack", run="^TestPiggybackPacking$",
-             quick=dict(shards=16, checks=60, timeout=600),
+             quick=dict(shards=16, checks=150, timeout=600),
              thorough=dict(shards=16, checks=3000, timeout=3400)),
     ],
     required_labels=dict(both=["TestPiggybackPacking/more-than-255-parts", "TestPiggybackPacking/within-16-bytes-of-limit", "TestPiggybackPacking/crc"]),
